@@ -7,10 +7,10 @@
    library's default size traits kMaxBuffers = 40).  `seq_pre`: the preconditions of std::vector (valid positions,
    pop_back / front / back on non-empty vectors).
 
-   RESULT: contents and sizes refine std::vector for every sequence (C32_cvec_refines_vector), returned positions too
-   except for erase() that shifts a tail (returns the new end()), element lifetimes are balanced except after a
-   shifting erase (vacated tail never destroyed) or a single-element insert (placement new over a live element):
-   C32_refuted* / C32_holds_except.  *)
+   RESULT (after the repairs of /repo, commits 6742701 "fix: ConcurrentVector::erase ..." and c8c0b30
+   "fix: ConcurrentVector::insert(pos, value) ..."): C32_holds : C32_full_statement -- contents, sizes, returned
+   positions refine std::vector and element lifetimes are balanced for EVERY operation sequence.  The witnesses that
+   refuted the statement on the unrepaired code are kept as regression examples (the C32_regression examples).  *)
 From Coq Require Import ZArith List Bool Lia.
 From DV Require Import Base.MachInt Base.Life Model.CVecModel Gen.GenCVec GenTie.CVecGenTie
   Proofs.CVecBucketProofs Proofs.CVecStoreProofs Proofs.CVecAllocProofs Proofs.CVecLoopProofs Proofs.CVecOpsProofs Proofs.CVecIterProofs
@@ -72,16 +72,15 @@ Qed.
 Print Assumptions C32_iterators_are_indices.
 
 (* cvec_refines_vector: for every trait combination and every operation sequence within the preconditions, after
-   every operation both vectors have the contents and sizes of the std::vector reference, no operation touches
-   unallocated storage, and -- unless an erase has to shift a tail -- every returned position / value is std::vector's *)
+   every operation both vectors have the contents and sizes of the std::vector reference and every returned
+   position / value is std::vector's; no operation touches unallocated storage *)
 Theorem C32_cvec_refines_vector : forall tr max_n ops, fits tr max_n -> seq_pre max_n ops = true ->
-  contents_of (model_trace tr (world0 tr) ops) = contents_of (spec_trace ([], []) ops) /\
-  cl_bad (wl (run tr (world0 tr) ops)) = 0 /\
-  (seq_no_erase_shift ops = true -> model_trace tr (world0 tr) ops = spec_trace ([], []) ops).
+  model_trace tr (world0 tr) ops = spec_trace ([], []) ops /\ cl_bad (wl (run tr (world0 tr) ops)) = 0.
 Proof. exact cvec_refines_vector_proof. Qed.
 Print Assumptions C32_cvec_refines_vector.
 
-(* one step: whatever the (reachable) state, each of the 35 operation forms commutes with its list specification *)
+(* one step: whatever the (reachable) state, each of the 35 operation forms commutes with its list specification
+   (contents of both vectors, returned position) and keeps the lifetimes clean *)
 Theorem C32_every_operation_commutes : forall tr max_n w sel o, fits tr max_n ->
   vinv tr (wa w) -> vinv tr (wb w) -> v_size (wa w) <= max_n -> v_size (wb w) <= max_n ->
   op_pre max_n (abs (w_self sel w)) (abs (w_other sel w)) o = true ->
@@ -89,59 +88,53 @@ Theorem C32_every_operation_commutes : forall tr max_n w sel o, fits tr max_n ->
 Proof. exact step_ok. Qed.
 Print Assumptions C32_every_operation_commutes.
 
+(* cvec_lifetime_balanced: for every trait combination and every operation sequence followed by the destruction of
+   both vectors, every constructed element is destroyed exactly once (no construction over a live element, no double
+   destruction, no use of a dead element, nothing lost with its storage, constructions = destructor calls) *)
+Theorem C32_cvec_lifetime_balanced : forall tr max_n ops, fits tr max_n -> seq_pre max_n ops = true ->
+  life_balanced (run_all tr ops).
+Proof. exact cvec_lifetime_balanced_proof. Qed.
+Print Assumptions C32_cvec_lifetime_balanced.
+
 (* C32 as stated: all sequences, returned positions and lifetimes included *)
 Definition C32_full_statement : Prop :=
   forall tr max_n ops, fits tr max_n -> seq_pre max_n ops = true ->
     model_trace tr (world0 tr) ops = spec_trace ([], []) ops /\ life_balanced (run_all tr ops).
 
-(* ... is false for the code as it is *)
-Theorem C32_refuted : ~ C32_full_statement.
-Proof. exact full_statement_false. Qed.
-Print Assumptions C32_refuted.
+Theorem C32_holds : C32_full_statement.
+Proof. exact full_statement_holds. Qed.
+Print Assumptions C32_holds.
 
-(* witness 1: emplace_back x3, erase(begin()), destructors: contents [2;3] right, returned position wrong (new end),
-   3 constructions, 2 destructor calls, 1 moved-from element lost with its storage *)
-Theorem C32_refuted_erase :
-  fits tr_small 1000 /\ seq_pre 1000 ops_erase = true /\
-  contents_of (model_trace tr_small (world0 tr_small) ops_erase) = contents_of (spec_trace ([], []) ops_erase) /\
-  model_trace tr_small (world0 tr_small) ops_erase <> spec_trace ([], []) ops_erase /\
-  ~ life_balanced (run_all tr_small ops_erase) /\
-  final_obs (run_all tr_small ops_erase) = [3; 0; 0; 0; 2; 2; 1; 1; 0; 0; 0; 0; 0].
-Proof. exact refuted_erase. Qed.
-Print Assumptions C32_refuted_erase.
+(* regression: emplace_back x3, erase(begin()): returned position 0, 3 constructions, 3 destructor calls
+   (before 6742701: position 2, 2 destructor calls, 1 moved-from element lost) *)
+Example C32_regression_erase :
+  seq_pre 1000 ops_erase = true /\
+  model_trace tr_small (world0 tr_small) ops_erase = [([1], [], 0); ([1; 2], [], 1); ([1; 2; 3], [], 2); ([2; 3], [], 0)] /\
+  life_balancedb (run_all tr_small ops_erase) = true /\
+  final_obs (run_all tr_small ops_erase) = [3; 0; 0; 0; 2; 3; 0; 0; 0; 0; 0; 0; 0].
+Proof. exact regression_erase. Qed.
 
-(* witness 2: six elements, erase(begin()+1, begin()+3): 6 constructions, 4 destructor calls *)
-Theorem C32_refuted_erase_range :
-  seq_pre 1000 ops_erase_range = true /\ ~ life_balanced (run_all tr_small ops_erase_range) /\
-  final_obs (run_all tr_small ops_erase_range) = [6; 0; 0; 0; 3; 4; 2; 2; 0; 0; 0; 0; 0].
-Proof. exact refuted_erase_range. Qed.
-Print Assumptions C32_refuted_erase_range.
+(* regression: six elements, erase(begin()+1, begin()+3): returned position 1, 6 / 6 (before: position 4, 6 / 4) *)
+Example C32_regression_erase_range :
+  seq_pre 1000 ops_erase_range = true /\
+  model_trace tr_small (world0 tr_small) ops_erase_range = [([10; 11; 12; 13; 14; 15], [], 0); ([10; 13; 14; 15], [], 1)] /\
+  life_balancedb (run_all tr_small ops_erase_range) = true /\
+  final_obs (run_all tr_small ops_erase_range) = [6; 0; 0; 0; 3; 6; 0; 0; 0; 0; 0; 0; 0].
+Proof. exact regression_erase_range. Qed.
 
-(* witness 3: emplace_back x3, insert(begin()+1, value): positions and contents right, one ConstructOverLive,
-   5 constructions, 4 destructor calls *)
-Theorem C32_refuted_insert :
-  seq_pre 1000 ops_insert = true /\ model_trace tr_small (world0 tr_small) ops_insert = spec_trace ([], []) ops_insert /\
-  ~ life_balanced (run_all tr_small ops_insert) /\
-  final_obs (run_all tr_small ops_insert) = [4; 1; 0; 0; 2; 4; 0; 0; 1; 0; 0; 0; 0].
-Proof. exact refuted_insert. Qed.
-Print Assumptions C32_refuted_insert.
+(* regression: emplace_back x3, insert(begin()+1, value): 4 constructions, one copy assignment, 4 destructor calls, no
+   ConstructOverLive (before c8c0b30: 5 constructions, 4 destructor calls, one ConstructOverLive) *)
+Example C32_regression_insert :
+  seq_pre 1000 ops_insert = true /\
+  model_trace tr_small (world0 tr_small) ops_insert = [([1], [], 0); ([1; 2], [], 1); ([1; 2; 3], [], 2); ([1; 9; 2; 3], [], 1)] /\
+  life_balancedb (run_all tr_small ops_insert) = true /\
+  final_obs (run_all tr_small ops_insert) = [4; 0; 0; 1; 2; 4; 0; 0; 0; 0; 0; 0; 0].
+Proof. exact regression_insert. Qed.
 
-(* cvec_lifetime_balanced on the complement of the findings' domains (seq_life_domain: a Gallina boolean on the
-   operation sequence: no erase that shifts a tail, no single-element insert): for every trait combination and every
-   such sequence followed by the destruction of both vectors, every constructed element is destroyed exactly once *)
-Theorem C32_holds_except : forall tr max_n ops, fits tr max_n -> seq_pre max_n ops = true -> seq_life_domain ops = true ->
-  model_trace tr (world0 tr) ops = spec_trace ([], []) ops /\ life_balanced (run_all tr ops).
-Proof.
-  intros tr max_n ops F P D.
-  exact (conj (proj2 (proj2 (cvec_refines_vector_proof tr max_n ops F P)) (proj1 (andb_prop _ _ D)))
-              (cvec_lifetime_balanced_proof tr max_n ops F P D)).
-Qed.
-Print Assumptions C32_holds_except.
-
-(* the hypotheses are satisfiable by a non-trivial input: a 15-operation sequence inside both domains that crosses
-   bucket boundaries on both vectors, with insert(pos, n, v), a tail erase, copy construction, swap, move assignment *)
+(* the hypotheses are satisfiable by a non-trivial input: a 15-operation sequence that crosses bucket boundaries on both
+   vectors, with insert(pos, n, v), shifting erases, a single insert, copy construction, swap, move assignment *)
 Example C32_nonvacuous :
-  fits tr_small 1000 /\ seq_pre 1000 ops_nonvacuous = true /\ seq_life_domain ops_nonvacuous = true /\
+  fits tr_small 1000 /\ seq_pre 1000 ops_nonvacuous = true /\
   spec_run ([], []) ops_nonvacuous = ([0; 0], [9; 9; 4]) /\
-  final_obs (run_all tr_small ops_nonvacuous) = [10; 16; 1; 3; 4; 27; 0; 0; 0; 0; 0; 0; 0].
+  final_obs (run_all tr_small ops_nonvacuous) = [11; 16; 1; 3; 23; 28; 0; 0; 0; 0; 0; 0; 0].
 Proof. exact nonvacuous. Qed.
